@@ -140,7 +140,8 @@ def cpp_prog(ctx):
     if p["kind"] in TEXT_KINDS:
         x = ctx.chars("x", 2, "print")
         G.require(ctx, x.rstrip(" ")[-1:] != "\\")          # a trailing backslash would continue the line
-        tagsemi = " [';' in a directive]" if (";" in x) else ""
+        # inside the quotes of #error "..." / #define MSG "..." a ';' is harmless on the pristine tree
+        tagsemi = " [';' in a directive]" if (";" in x and p["kind"] in ("else_trail", "endif_trail")) else ""
         G.require(ctx, api.conj([ch != '"' for ch in x]))
     else:
         x = G.fresh_name(ctx, "x", 3)
